@@ -19,6 +19,16 @@ pub uninterp spec fn dh_fn(id: int, sk: Seq<u8>, pk: Seq<u8>) -> Seq<u8>;
 // whether the DH function accepts this peer public key (always true for X25519; P-256 rejects invalid points)
 pub uninterp spec fn dh_valid(id: int, sk: Seq<u8>, pk: Seq<u8>) -> bool;
 
+// what a primitive *name* in a Noise protocol name stands for: every backend that provides e.g. DHChoice::Curve25519
+// must provide the same function with the same lengths (assumed contract of CryptoResolver implementations)
+pub uninterp spec fn spec_dh_id(c: crate::params::DHChoice) -> int;
+pub uninterp spec fn spec_dh_pl(c: crate::params::DHChoice) -> int;
+pub uninterp spec fn spec_dh_dl(c: crate::params::DHChoice) -> int;
+pub uninterp spec fn spec_dh_prl(c: crate::params::DHChoice) -> int;
+pub uninterp spec fn spec_hash_id(c: crate::params::HashChoice) -> int;
+pub uninterp spec fn spec_hash_hl(c: crate::params::HashChoice) -> int;
+pub uninterp spec fn spec_hash_bl(c: crate::params::HashChoice) -> int;
+pub uninterp spec fn spec_cipher_id(c: crate::params::CipherChoice) -> int;
 pub uninterp spec fn gen_sk(rng_state: int, did: int) -> Seq<u8>;
 pub uninterp spec fn gen_next(rng_state: int) -> int;
 pub open spec fn zeros(n: int) -> Seq<u8> { Seq::new(n as nat, |i: int| 0u8) }
